@@ -27,6 +27,13 @@ pub struct Meters(pub u32);
 pub struct Label(pub String);
 
 #[derive(Serialize, Deserialize, PartialEq, Debug, Clone)]
+pub struct Ver(pub u8, pub u8, pub u8);
+#[derive(Serialize, Deserialize, PartialEq, Debug, Clone)]
+pub struct Seqs { pub version: Ver, pub name: String, pub tags: Vec<String>, pub pair: (u8, String), pub ids: Vec<u32>, pub last: Ver }
+#[derive(Serialize, Deserialize, PartialEq, Debug, Clone)]
+pub struct Seqs2 { pub tags: Vec<String>, pub version: Ver, pub ids: Vec<u32>, pub pair: (u8, String), pub more: Vec<String> }
+
+#[derive(Serialize, Deserialize, PartialEq, Debug, Clone)]
 pub struct Mixed {
     pub id: u64,
     pub name: String,
@@ -198,6 +205,14 @@ fn rt_case(rep: &mut Report, case: u64, rng: &mut Rng) {
         nick: if rng.bool() { None } else { Some({ let s = gen_string(rng); if s.is_empty() { "n".into() } else { s } }) }, count: if rng.bool() { None } else { Some(gen_int!(rng, i32)) }, dist: Meters(gen_int!(rng, u32)),
         initial: gen_char(rng), tags, delta: gen_int!(rng, i16) };
     round_trip(rep, case, "Mixed", "struct", &mx, &|a: &Mixed, b: &Mixed| a.ratio.to_bits() == b.ratio.to_bits() && { let mut c = b.clone(); c.ratio = a.ratio; *a == c });
+    // several sequence-like fields in one value (tuple struct, Vec, tuple, Vec again): state a writer keeps between elements must not
+    // travel from one field to the next, whichever kind comes first
+    let strs = |rng: &mut Rng, n: usize| -> Vec<String> { (0..n).map(|_| { let s = gen_string(rng); if s.is_empty() { "x".into() } else { s } }).collect() };
+    let sq = Seqs { version: Ver(gen_int!(rng, u8), gen_int!(rng, u8), gen_int!(rng, u8)), name: gen_string(rng), tags: { let n = rng.range(1, 3); strs(rng, n) }, pair: (gen_int!(rng, u8), { let v = strs(rng, 1); v[0].clone() }),
+        ids: (0..rng.range(1, 3)).map(|_| gen_int!(rng, u32)).collect(), last: Ver(gen_int!(rng, u8), 0, 255) };
+    round_trip(rep, case, "Seqs{tuple-struct,Vec,tuple,Vec,tuple-struct}", "struct", &sq, &peq);
+    let sq2 = Seqs2 { tags: { let n = rng.range(1, 3); strs(rng, n) }, version: Ver(gen_int!(rng, u8), gen_int!(rng, u8), gen_int!(rng, u8)), ids: (0..rng.range(1, 3)).map(|_| gen_int!(rng, u32)).collect(), pair: (gen_int!(rng, u8), "p".into()), more: { let n = rng.range(1, 2); strs(rng, n) } };
+    round_trip(rep, case, "Seqs2{Vec,tuple-struct,Vec,tuple,Vec}", "struct", &sq2, &peq);
     let _ = same::<u8>;
 }
 
